@@ -198,8 +198,6 @@ pub fn load_fuzz<K: Tgt>(cx: &mut Ctx, bytes: &[u8], info: &Info, counter: &'sta
             detail::<K>(bytes, info, json!({"first_invalid": hexane::verif_hooks::first_invalid().map(hex::encode)})),
         );
     }
-    let near = info.edits.map(|e| e <= 8).unwrap_or(false);
-    let _ = near;
 }
 
 /// (a) columns built by edit sequences round-trip.
@@ -461,9 +459,7 @@ impl Check for C35 {
                 let (desc, k) = mutate(rng, &mut bytes);
                 let info = Info { origin: format!("valid {} encoding {} mutated: {desc}", es[bi].name, hex::encode(&valid[..valid.len().min(64)])), edits: Some(k), valid_for: None };
                 cx.trace(|| format!("target {} input {} ({})", es[ti].name, hex::encode(&bytes), info.origin));
-                let before = cx.counters.get("loads_ok").copied().unwrap_or(0);
                 (es[ti].fuzz)(cx, &bytes, &info, es[ti].counter);
-                let _ = before;
                 cx.nontrivial(fnv(&bytes) ^ hash_str(es[ti].name));
                 cx.sample(|| json!({"kind": "mutated", "target": es[ti].name, "base": es[bi].name, "mutation": desc, "input": hex::encode(&bytes[..bytes.len().min(48)])}));
             }
